@@ -51,11 +51,15 @@ type probeJob struct {
 }
 
 type job struct {
-	Policy json.RawMessage `json:"policy"`
-	Flags  uint32          `json:"flags"`
-	NNP    bool            `json:"nnp"`
-	Probes []probeJob      `json:"probes"`
-	Shm    string          `json:"shm"`
+	// Restrictive: the default action denies the Go runtime's own system calls too, so the child may be brought down by its
+	// runtime at any moment after the install (a denied futex wake-up crashes the process). Missing results are then
+	// inconclusive; results that did arrive are judged as usual.
+	Restrictive bool            `json:"restrictive"`
+	Policy      json.RawMessage `json:"policy"`
+	Flags       uint32          `json:"flags"`
+	NNP         bool            `json:"nnp"`
+	Probes      []probeJob      `json:"probes"`
+	Shm         string          `json:"shm"`
 }
 
 // shared page layout (uint32 words):
@@ -186,7 +190,9 @@ type summary struct {
 	Fatal      int            `json:"fatal_probes"`
 	Failures   map[string]int `json:"failures"`
 	Skipped    int            `json:"skipped_children"`
-	Samples    []interface{}  `json:"samples"`
+	// children with a restrictive default action that died before answering all probes (inconclusive, see job.Restrictive)
+	Inconclusive int           `json:"inconclusive_children"`
+	Samples      []interface{} `json:"samples"`
 }
 
 type outcome struct {
@@ -376,6 +382,12 @@ func judgeChild(base failure, j *job, o *outcome, fatalIdx int) {
 		fmt.Fprintln(os.Stderr, "child did not start:", o.stderr)
 		return
 	}
+	if o.load == 0 && j.Restrictive {
+		mu.Lock()
+		sum.Inconclusive++
+		mu.Unlock()
+		return
+	}
 	if o.load != 1 {
 		f := mk("load", "LoadFilter failed for a valid policy: "+o.stderr)
 		fail(f)
@@ -418,6 +430,13 @@ func judgeChild(base failure, j *job, o *outcome, fatalIdx int) {
 			sum.Fatal++
 		}
 		mu.Unlock()
+		if !ok && j.Restrictive && slot == 0 && !(p.Expect == "fatal" && o.stage == 3) {
+			// the process went down before this probe was answered: its own runtime was denied a system call
+			mu.Lock()
+			sum.Inconclusive++
+			mu.Unlock()
+			return
+		}
 		if !ok {
 			f := mk("kernel", "the running kernel decided differently than the policy prescribes")
 			f.Probe = p
@@ -595,8 +614,15 @@ func main() {
 			plain = plain[:400]
 		}
 		fl := flagsChoices[rng.Intn(len(flagsChoices))]
+		// A default action other than allow/log also denies the Go runtime's own system calls. With thread-sync the
+		// runtime's helper threads would be hit and bring the process down at an arbitrary moment, so such policies are
+		// installed on the probing thread only (which issues nothing but raw probes afterwards).
+		restrictive := cs.Pol.Def != "allow" && cs.Pol.Def != "log"
+		if restrictive {
+			fl &^= 1
+		}
 		nnp := rng.Intn(2) == 0
-		j := &job{Policy: pj, Flags: fl, NNP: nnp, Probes: plain}
+		j := &job{Policy: pj, Flags: fl, NNP: nnp, Probes: plain, Restrictive: restrictive}
 		works = append(works, work{base, j, -1})
 		// one child per fatal probe (at most two per case), after a few plain probes
 		rng.Shuffle(len(fatals), func(i, j int) { fatals[i], fatals[j] = fatals[j], fatals[i] })
@@ -606,7 +632,11 @@ func main() {
 				pre = pre[:5]
 			}
 			pr := append(append([]probeJob{}, pre...), fatals[k])
-			works = append(works, work{base, &job{Policy: pj, Flags: flagsChoices[rng.Intn(4)], NNP: true, Probes: pr}, len(pr) - 1})
+			ffl := flagsChoices[rng.Intn(4)]
+			if restrictive {
+				ffl &^= 1
+			}
+			works = append(works, work{base, &job{Policy: pj, Flags: ffl, NNP: true, Probes: pr, Restrictive: restrictive}, len(pr) - 1})
 		}
 		if len(sum.Samples) < 3 {
 			sum.Samples = append(sum.Samples, map[string]interface{}{"policy": pj, "concretisation": c.Describe(), "flags": fl, "nnp": nnp,
